@@ -29,6 +29,9 @@ func genForeignStream(r *sim.Rng, format string) *checks.StreamRecipe {
 		}
 	}
 	pl := sim.GenPayload(r, 3000)
+	if r.Chance(1, 30) {
+		pl = zeroTailPayload(r)
+	}
 	if liblzma.Available && r.Chance(2, 3) {
 		o := &liblzma.EncOptions{Preset: uint32(r.Intn(3)), LC: -1, Check: sim.Pick(r, []int{0, 1, 4, 10})}
 		if format == "xz" {
@@ -229,7 +232,9 @@ func genC15(r *sim.Rng, tier string, idx int) *GCase {
 				case 2:
 					// the name is taken by a symbolic link: dangling, to a file, to a directory
 					ref := "nowhere"
-					switch r.Intn(3) {
+					switch r.Intn(4) {
+					case 3:
+						ref = f.Name // the link under the target name leads back to the operand
 					case 1:
 						ref = pickName(false) + ".referent"
 						c.Files = append(c.Files, genPlainFile(r, ref, 100))
